@@ -930,7 +930,7 @@ class CompositeEnvelope:
                 return
 
         # Check if all states are included in composite envelope
-        assert all(s in self.state_objs for s in state_objs)
+        assert all(any(s is so for so in self.state_objs) for s in state_objs)
 
         """
         Get all product states, which include any of the
@@ -1423,7 +1423,7 @@ class CompositeEnvelope:
             raise ValueError("Only Fock spaces can be resized")
 
         # Check if fock is in this composite envelope
-        if fock not in self.state_objs:
+        if not any(fock is so for so in self.state_objs):
             raise ValueError(
                 "Tried to resizing fock, which is not a part of this envelope"
             )
